@@ -685,6 +685,9 @@ def run_e(prop, tier, n_st=350, n_pool=350, dfs_budget=500, long_runs=30):
     be_runs = 0
     if prop in ('C04', 'C06'):
         be_fails, be_runs = backend_checks(ld, r, tier, prop)
+        if prop == 'C04':
+            sf, sr = shape_checks(ld, r, tier)
+            be_fails, be_runs = sf + be_fails, be_runs + sr
         for msg in be_fails[:5]:
             failures.append(dict(kind='schedule', summary=msg, config=dict(kind='backend'), got_from_impl=msg))
     if prop == 'C07':
@@ -843,9 +846,31 @@ def backend_checks(ld, r, tier, prop):
                         variants = [('prefetch', lambda: src.map(fn).prefetch(w, b, backend=be, catch_filter_exception=catch))]
                         if catch is None:
                             variants.append(('parmap', lambda: src.map(fn, num_workers=w, buffer_size=b, backend=be)))
+                        if thread:
+                            # the single-thread path of the same call, value and key iteration
+                            variants.append(('prefetch(1)', lambda: src.map(fn).prefetch(1, b, catch_filter_exception=catch)))
+                            variants.append(('prefetch(1).items', lambda: src.map(fn).prefetch(1, b, catch_filter_exception=catch).items()))
+                            if catch is None:
+                                variants.append(('parmap.items', lambda: src.map(fn, num_workers=w, buffer_size=b, backend=be).items()))
                         for name, make in variants:
                             runs += 1
                             got = b_observe(make)
+                            if name.endswith('.items'):
+                                # (key, value) pairs: check the keys, then compare the values like the other variants
+                                vals, okk = [], True
+                                for kv in got[0]:
+                                    if not (isinstance(kv, tuple) and len(kv) == 2 and isinstance(kv[0], str) and kv[0].startswith('k')):
+                                        okk = False
+                                        break
+                                    x = int(kv[0][1:])
+                                    e = t.get(x)
+                                    if repr(kv[1]) != repr(x + 1 if e is None else e[1] if e[0] == 'val' else '<raises>'):
+                                        okk = False
+                                    vals.append(kv[1])
+                                if not okk:
+                                    fails.append(f'backend {be} {name} num_workers={w} buffer_size={b} n={n} catch={catch} function table {t}: keys and examples are not paired: {got[0]}')
+                                    continue
+                                got = (vals, got[1])
                             if got[1] is not None and exp[1] is not None and got[1][0] == exp[1][0] and got[1][1] is None:
                                 got = (got[0], exp[1])       # some pools rebuild the exception without its argument
                             if got != exp:
@@ -864,6 +889,74 @@ def backend_checks(ld, r, tier, prop):
                             except Exception as e:
                                 fails.append(f'backend {be} w={w} b={b} n={n}: len / items raised {type(e).__name__}: {e}')
     return fails, runs
+
+
+def _keep_odd(x):
+    return x % 2 == 1
+
+
+def _raise_filter_mult3(x):
+    import lazy_dataset
+    if x % 3 == 0:
+        raise lazy_dataset.FilterException()
+    return x
+
+
+def shape_checks(ld, r, tier):
+    """value and key iteration of map(fn, num_workers) / prefetch over inputs of different kinds (lazy filter, intersperse,
+    catch, slice, concatenate, cycle, items): the parallel pipeline must equal the sequential one"""
+    import warnings, itertools as it
+    fails, runs = [], 0
+    quick = tier == 'quick'
+    shapes = ['plain', 'filter', 'intersperse', 'catch', 'slice', 'concat', 'cycle', 'sorted', 'keyzip']
+    with warnings.catch_warnings():
+        warnings.simplefilter('ignore')
+        for be in (['t', 'dill_mp'] if quick else ['t', 'mp', 'dill_mp', 'concurrent_mp']):
+            for (w, b) in ([(2, 2)] if quick or be != 't' else [(1, 1), (2, 2), (3, 4)]):
+                for shape in shapes:
+                    if be != 't' and shape not in ('plain', 'filter', 'intersperse', 'cycle'):
+                        continue
+                    n = r.randint(3, 7)
+                    src = ld.new({f'k{i:02d}': i for i in range(n)})
+                    src2 = ld.new({f'z{i:02d}': 100 + i for i in range(r.randint(1, 4))})
+                    if shape == 'plain': base = src
+                    elif shape == 'filter': base = src.filter(_keep_odd)
+                    elif shape == 'intersperse': base = src.intersperse(src2)
+                    elif shape == 'catch': base = src.map(_raise_filter_mult3).catch()
+                    elif shape == 'slice': base = src[1:]
+                    elif shape == 'concat': base = src.concatenate(src2)
+                    elif shape == 'cycle': base = src.cycle()
+                    elif shape == 'sorted': base = src.sort(reverse=True)
+                    else: base = src.key_zip(src.map(_keep_odd)[::-1])
+                    table = {x: ('val', r.choice([None, 0, ''])) for x in range(n) if r.random() < 0.3} if shape != 'keyzip' else {}
+                    fn = BFn(table) if shape != 'keyzip' else BTupFn()
+                    lim = 2 * n + 1 if shape == 'cycle' else None
+
+                    def obs(mk):
+                        try:
+                            return ('ok', [repr(x) for x in it.islice(mk(), lim)])
+                        except BaseException as e:  # noqa
+                            if isinstance(e, (KeyboardInterrupt, SystemExit)):
+                                raise
+                            return ('err', type(e).__name__)
+                    variants = [('map(num_workers).values', lambda: base.map(fn), lambda: base.map(fn, num_workers=w, buffer_size=b, backend=be)),
+                                ('map(num_workers).items', lambda: base.map(fn).items(), lambda: base.map(fn, num_workers=w, buffer_size=b, backend=be).items())]
+                    if base.indexable and shape != 'cycle':
+                        variants.append(('prefetch.values', lambda: base.map(fn), lambda: base.map(fn).prefetch(w, b, backend=be)))
+                    if be == 't':
+                        variants.append(('prefetch(1).items', lambda: base.map(fn).items(), lambda: base.map(fn).prefetch(1, b).items()))
+                        variants.append(('prefetch(1).values', lambda: base.map(fn), lambda: base.map(fn).prefetch(1, b)))
+                    for name, seq, par in variants:
+                        runs += 1
+                        a, c = obs(lambda: iter(seq())), obs(lambda: iter(par()))
+                        if a != c and not (a[0] == 'err' and c[0] == 'err'):
+                            fails.append(f'backend {be} num_workers={w} buffer_size={b}: {name} over a {shape} input (n={n}, function table {table}): parallel {c} vs sequential {a}')
+    return fails, runs
+
+
+class BTupFn:
+    def __call__(self, x):
+        return (x[0], x[1], 1)
 
 
 # ------------------------------------------------------------------ read-ahead through the Dataset API (OS schedule, stalled consumer)
@@ -911,4 +1004,34 @@ def dataset_level_readahead(ld, r, tier):
                 bound = (b + 2) if kind.startswith('prefetch1') or (kind.startswith('prefetch') and w == 1) else b * per
                 if worst > bound:
                     fails.append(f'{kind} num_workers={w} buffer_size={b}: {worst} function applications ahead of the consumer (bound {bound})')
+        # buffer sizes outside the documented range (0, negative, smaller than the worker count): either refused loudly or
+        # still bounded - never an unbounded read-ahead
+        for (w, b) in [(1, 0), (1, -1), (2, 1), (2, 0), (1, -3)]:
+            for kind in ('prefetch', 'prefetch_items', 'parmap'):
+                started = []
+
+                def fn(x):
+                    started.append(x)
+                    return x
+                src = ld.new({f'k{i:02d}': i for i in range(n)})
+                runs += 1
+                it = None
+                try:
+                    if kind == 'prefetch': it = iter(src.map(fn).prefetch(w, b))
+                    elif kind == 'prefetch_items': it = iter(src.map(fn).prefetch(w, b).items())
+                    else: it = iter(src.map(fn, num_workers=w, buffer_size=b))
+                    worst = 0
+                    for k in range(1, 5):
+                        next(it)
+                        time.sleep(0.03)
+                        worst = max(worst, len(started) - k)
+                except Exception:
+                    continue                      # refused: fine
+                finally:
+                    if it is not None and hasattr(it, 'close'):
+                        try: it.close()
+                        except Exception: pass
+                bound = max(b, 1) + 2
+                if worst > bound:
+                    fails.append(f'{kind} num_workers={w} buffer_size={b} (outside the valid range) is accepted and reads {worst} examples ahead of the consumer (> {bound}): unbounded read-ahead')
     return fails, runs
